@@ -374,7 +374,14 @@ fn is_suffix(s: &[u8], r: &[u8]) -> bool {
 fn recv_laws<T: Packet + Debug + Clone + PartialEq + Default>(s: &[u8], depth: u32) -> RecvOutcome {
     let r = match catch_unwind(AssertUnwindSafe(|| T::decode(s))) {
         Ok(r) => r,
-        Err(e) => return RecvOutcome::RequiredPanic(format!("decode: {}", panic_msg(e))),
+        Err(e) => {
+            // not judged — but the provided methods are still exercised on this input, as a caller
+            // would: whatever they do around a panicking decode becomes part of the thread's history
+            let mut cur: &[u8] = s;
+            let _ = catch_unwind(AssertUnwindSafe(|| T::decode_mut(&mut cur).is_ok()));
+            let _ = catch_unwind(AssertUnwindSafe(|| T::decode_full(s).is_ok()));
+            return RecvOutcome::RequiredPanic(format!("decode: {}", panic_msg(e)));
+        }
     };
     // decode_mut on the caller's cursor
     let mut cur: &[u8] = s;
